@@ -338,7 +338,7 @@ def h_reload(e, ia, ib, mode, cfg, steps):
     e.claim("canary:reload", A["hits"] == -1)
 
 
-def h_deep(e, repl, ib, bb, ways, ops):
+def h_deep(e, repl, ib, bb, ways, ops, mask="1"):
     """fetch / reset histories from a fresh instruction cache against the executable reference
     cache of checks/cachestep.py: ops is a string over f (fetch at a symbolic address of the
     current program) and R (reset of the cache system followed by writing a different program, as
@@ -353,9 +353,21 @@ def h_deep(e, repl, ib, bb, ways, ops):
     g = Geo(ib, bb, ways)
     nprog = (ways + 1) * g.sets * g.words  # one block more per set than fits
     progs = [[ADDI(rd=1 + k % 31, rs1=0, imm=k) for k in range(nprog)], [ORI(rd=1 + k % 31, rs1=0, imm=100 + k) for k in range(nprog)]]
+    # mask: which instruction slots hold an instruction (repeated over the program); "1" = a
+    # contiguous program, anything else = a sparse instruction memory written slot by slot
+    present = [k for k in range(nprog) if mask[k % len(mask)] == "1"]
+    sparse = len(present) != nprog
+
+    def write_program(target, prog):
+        if not sparse:
+            target.write_instructions(prog)
+        else:
+            for k in present:
+                target.write_instruction(4 * k, prog[k])
+
     cur = 0
     im = InstructionMemory()
-    im.write_instructions(progs[0])
+    write_program(im, progs[0])
     pm = RiscvPerformanceMetrics()
     penalty = e.int("penalty", 0, 1000)
     cs = InstructionMemoryCacheSystem(instruction_memory=im, num_index_bits=g.ib, num_block_bits=g.bb, associativity=g.ways, performance_metrics=pm, miss_penality=penalty, replacement_strategy=repl)
@@ -372,12 +384,14 @@ def h_deep(e, repl, ib, bb, ways, ops):
         if op == "R":
             cs.reset()
             cur = 1 - cur
-            cs.write_instructions(progs[cur])
+            write_program(cs, progs[cur])
             symbolise()
             ref = cachestep.RefCache(g, repl, write_allocate=True)
             e.claim_eq("d%d-counters-zero-after-reset" % k, [cs.hits, cs.accesses], [0, 0])
             continue
-        i = e.int("i%d" % k, 0, nprog - 1)
+        i = e.int("i%d" % k, 0, len(present) - 1)
+        if sparse:
+            i = present[e.concretize(i) if e.mode == "sym" else int(i)]
         a = 4 * i
         h0, a0, c0 = cs.hits, cs.accesses, pm.cycles
         got = cs.read_instruction(a)
@@ -431,6 +445,10 @@ def jobs(tier, seed):
                 continue
             for pat in pats:
                 out.append({"label": "deep-%s-i%db%dw%d-%s" % (repl, ib_, bb_, ways_, pat), "harness": "deep", "args": {"repl": repl, "ib": ib_, "bb": bb_, "ways": ways_, "ops": pat}, "cost": 30 * len(pat), "validate_every": 5})
+    # sparse instruction memories (holes in front of / between the instructions of a block)
+    for (ib_, bb_, ways_), masks in [((0, 1, 1), ["01", "10", "011"]), ((0, 1, 2), ["01", "101"])] + ([((0, 2, 1), ["0101", "0011", "0110"])] if tier != "quick" else [((0, 2, 1), ["0110"])]):
+        for mk in masks:
+            out.append({"label": "deep-sparse-lru-i%db%dw%d-%s" % (ib_, bb_, ways_, mk), "harness": "deep", "args": {"repl": "lru", "ib": ib_, "bb": bb_, "ways": ways_, "ops": "ffRf", "mask": mk}, "cost": 60, "validate_every": 5})
     n_ = 0
     for ia in range(len(RELOAD_PROGS)):
         for ib in range(len(RELOAD_PROGS)):
